@@ -237,3 +237,19 @@ pub(crate) fn on_dispatched_instruction() {
         raise_interrupt();
     }
 }
+
+// ---------------------------------------------------------------------------
+// Atom interning through the process-wide atom table.
+
+/// Intern `text` in the process-wide atom table (creating the table if no machine exists).
+/// Returns the atom's raw index, whether it is stored inline, and the text the atom reads back as.
+pub fn intern_atom(text: &str) -> (u64, bool, String) {
+    let table = crate::atom_table::AtomTable::new().expect("atom table");
+    let atom = crate::atom_table::AtomTable::build_with(&table, text);
+    (atom.index, atom.is_inlined(), atom.as_str().to_string())
+}
+
+/// Keep the process-wide atom table alive for the lifetime of the returned guard.
+pub fn atom_table_guard() -> impl Send + Sync {
+    crate::atom_table::AtomTable::new().expect("atom table")
+}
